@@ -86,4 +86,13 @@ acquired while an identifier of the same list is held. -/
 theorem lock_order_ascends : ∃ es, Generated.lockOrderEdges = some es ∧
     es.all SyncText.edgeAscends = true := ⟨_, rfl, by decide +kernel⟩
 
+/-- [C07, C08, C12, C13, C16] every claim of an identifier in the source is released on every exit —
+the matching release stands in the `finally` of a `try` the claim lies in or of the `try` that is
+the very next statement (the source-level form of the discipline `Prog.Disc` that `calls_disciplined`
+proves of the model's program texts) — and the claims are those of the model's calls. -/
+theorem acquire_sites_guarded : ∃ ss, Generated.acquireSites = some ss ∧
+    ss.all SyncText.siteGuarded = true ∧
+    ss.map SyncText.siteKey = SyncText.expectedSites.map (fun e => (e.1, some e.2)) :=
+  ⟨_, rfl, by decide +kernel, by decide +kernel⟩
+
 end HS.Tables
